@@ -60,10 +60,11 @@ const (
 	pathOtherPresent
 	pathHardlink
 	pathSymlinkToInput // the destination name is a symbolic link to the input file
+	pathOtherSpelling  // the destination is the input file, spelled differently (dir/sub/../in.bin)
 	numPathModes
 )
 
-var pathModeNames = []string{"same", "emptyname", "other-absent", "other-present", "hardlink", "symlink-to-input"}
+var pathModeNames = []string{"same", "emptyname", "other-absent", "other-present", "hardlink", "symlink-to-input", "same-file-other-spelling"}
 
 type scratch struct {
 	dir string
@@ -121,12 +122,21 @@ func runApply(s *scratch, orig []byte, ps []patch, viaDump bool, pathMode int, m
 		if err := os.Symlink(inpath, outpath); err != nil {
 			panic(err)
 		}
+	case pathOtherSpelling:
+		os.Mkdir(filepath.Join(dir, "sub"), 0o755)
+		outpath = dir + "/sub/../in.bin"
 	}
 	set := binpatch.New()
 	for _, p := range ps {
 		set.Add(p.Off, p.Old, p.Blob)
 	}
-	f, err := os.OpenFile(inpath, os.O_RDWR, 0)
+	// as the command line opens it (shared.OpenForPatching): writable only when the output
+	// path is, as a string, the input path
+	flag := os.O_RDONLY
+	if outpath == inpath || outpath == "" {
+		flag = os.O_RDWR
+	}
+	f, err := os.OpenFile(inpath, flag, 0)
 	if err != nil {
 		panic(err)
 	}
@@ -196,7 +206,7 @@ func leftovers(dir string, pathMode int) string {
 	ents, _ := os.ReadDir(dir)
 	for _, e := range ents {
 		switch e.Name() {
-		case "in.bin", "out.bin", "link.bin":
+		case "in.bin", "out.bin", "link.bin", "sub":
 		default:
 			return "leftover file " + e.Name()
 		}
